@@ -3,6 +3,7 @@ CONSTANTS
   Component = "mixedx"
   Precisions = {1, 2, 3, 4, 5, 6, 7, 8, 9, 10, 11, 12}
   NMixed = 15000
+  NShards = 1
   DEV_XmlDropsHorn = FALSE
   DEV_ReaderStopsAtFirstUnset = FALSE
 INVARIANT Emit
